@@ -125,9 +125,14 @@ def make_budget(case, base, extra_row=None):
             f.write(CSV_RULES)
     if case["mode"]:
         y.append(f"rule_mode: {case['mode']}")
-    y.append('data_sources:\n  - name: Card\n    file: data/s.csv\n    format: "{date:%m/%d/%Y},{description},{amount}"')
+    card = '  - name: Card\n    file: data/s.csv\n    format: "{date:%m/%d/%Y},{description},{amount}"'
+    orders = '  - name: orders\n    file: data/orders.csv\n    format: "{date:%Y-%m-%d},{item},{amount}"\n    columns:\n      description: "{item}"\n    supplemental: true'
+    y.append("data_sources:")
+    if case["supplemental"] and case["transform"]:
+        y += [orders, card]            # the supplemental source comes first
+    else:
+        y += [card] + ([orders] if case["supplemental"] else [])
     if case["supplemental"]:
-        y.append('  - name: orders\n    file: data/orders.csv\n    format: "{date:%Y-%m-%d},{item},{amount}"\n    columns:\n      description: "{item}"\n    supplemental: true')
         with open(os.path.join(base, "data", "orders.csv"), "w", encoding="utf-8") as f:
             f.write("Date,Item,Amount\n2025-02-05,Book,99.75\n2025-03-01,Lamp,42.00\n")
     with open(os.path.join(base, "config", "settings.yaml"), "w", encoding="utf-8") as f:
